@@ -7,6 +7,7 @@ import RbV.Lemmas.OrfScan
 import RbV.Lemmas.OrfScanP
 import RbV.Thm.GenSrcOrf
 import RbV.Thm.GenSrcGc
+import RbV.Thm.GenSrcAlphabet
 /-!
 # C20 — ORF finder, complements, alphabets / rank transform, GC content
 
@@ -369,5 +370,61 @@ theorem gc3_content_source_counts {F : Type} (toF32 : Nat → F) (fdiv : F → F
 -- GATATACA: 2 of 8; positions 0, 3, 6 = G A C: 2 of 3 (the documented example)
 example : Gen.SrcGc.gcnContent (F := Nat × Nat) (fun n => (n, 1)) (fun a b => (a.1, b.1)) [71, 65, 84, 65, 84, 65, 67, 65] 3
     = Rs.Res.ok (2, 3) := by decide
+
+/-! ### the source text of `Alphabet` / `RankTransform` (translated on every run, `Gen/SrcAlphabet.lean`)
+
+`bit_set::BitSet` and `vec_map::VecMap<u8>` are the containers `Rs.BitSet` (ascending member list) and `Rs.VecMap`
+(association list) of `RsSem.lean` — the trusted meaning of the two crates; everything `alphabets/mod.rs` does with them
+is translated text. -/
+
+/-- `Alphabet::new(symbols)` as written in the source builds exactly the model's alphabet, whose members are the given
+bytes (`alphabet_members`) -/
+theorem alphabet_new_source_eq_model (syms : List Nat) (hb : ∀ c ∈ syms, c < 256) :
+    Gen.SrcAlphabet.alphabetNew syms = Rs.Res.ok (Alpha.mk syms) :=
+  GenSrcAlphabet.alphabetNew_eq_model syms hb
+
+/-- `Alphabet::insert` as written in the source -/
+theorem alphabet_insert_source_eq_model (syms : List Nat) (a : Nat) (ha : a < 256) :
+    Gen.SrcAlphabet.alphabetInsert (Alpha.mk syms) a = Rs.Res.ok (Alpha.mk (a :: syms)) :=
+  GenSrcAlphabet.alphabetInsert_eq_model syms a ha
+
+/-- `Alphabet::is_word`, `max_symbol`, `len` as written in the source, on the alphabet `Alphabet::new(syms)` builds:
+a text is accepted iff all its symbols are among `syms` (`is_word_iff`), the maximal symbol is the last member, the size
+is the number of members -/
+theorem alphabet_queries_source_eq_model (syms t : List Nat) :
+    Gen.SrcAlphabet.isWord (Alpha.mk syms) t = Rs.Res.ok (Alpha.isWord (Alpha.mk syms) t) ∧
+    (Alpha.isWord (Alpha.mk syms) t = true ↔ ∀ c ∈ t, c ∈ syms ∧ c < 256) ∧
+    Gen.SrcAlphabet.maxSymbol (Alpha.mk syms) = Rs.Res.ok (Alpha.maxSymbol (Alpha.mk syms)) ∧
+    Gen.SrcAlphabet.len (Alpha.mk syms) = Rs.Res.ok (Alpha.mk syms).length :=
+  ⟨GenSrcAlphabet.isWord_eq_model _ t, is_word_iff syms t,
+   GenSrcAlphabet.maxSymbol_eq_model _ (Alpha.mk_sorted syms) (fun a ha => ((Alpha.mem_mk syms a).mp ha).2),
+   GenSrcAlphabet.len_eq_model _⟩
+
+/-- **`RankTransform::{new, get, transform}` as written in the source**: `new` builds a map that sends every member of
+the alphabet to its rank in the model (`rank_bijective_monotone`: an order-preserving bijection onto `0..|A|`) and nothing
+else; `get` returns that rank and panics outside the alphabet; `transform` maps a word over the alphabet to its ranks. -/
+theorem rank_transform_source_eq_model (syms : List Nat) :
+    ∃ m, Gen.SrcAlphabet.rankNew (Alpha.mk syms) = Rs.Res.ok m ∧
+      (∀ a, Gen.SrcAlphabet.rankGet m a
+          = if a ∈ Alpha.mk syms then Rs.Res.ok (Alpha.rank (Alpha.mk syms) a) else Rs.Res.panic) ∧
+      (∀ t, (∀ c ∈ t, c ∈ Alpha.mk syms) →
+          Gen.SrcAlphabet.transform m t = Rs.Res.ok (Alpha.transform (Alpha.mk syms) t)) := by
+  have hl : (Alpha.mk syms).length ≤ 256 := by
+    unfold Alpha.mk
+    exact Nat.le_trans (List.length_filter_le _ _) (by simp)
+  obtain ⟨m, h1, h2⟩ := GenSrcAlphabet.rankNew_eq_model (Alpha.mk syms) (Alpha.mk_sorted syms) hl
+  exact ⟨m, h1, fun a => GenSrcAlphabet.rankGet_eq_model _ m h2 a,
+    fun t ht => GenSrcAlphabet.transform_eq_model _ m h2 t ht⟩
+
+-- the translated constructors and queries on "TAGCA": alphabet A C G T, ranks 0 1 2 3, the full byte alphabet
+example : (do let a ← Gen.SrcAlphabet.alphabetNew [84, 65, 71, 67, 65]
+              let m ← Gen.SrcAlphabet.rankNew a
+              Gen.SrcAlphabet.transform m [71, 65, 84, 84, 65, 67, 65]) = Rs.Res.ok [2, 0, 3, 3, 0, 1, 0] := by decide
+example : (do let a ← Gen.SrcAlphabet.alphabetNew (List.range 256)
+              let m ← Gen.SrcAlphabet.rankNew a
+              Gen.SrcAlphabet.transform m [255, 0, 128]) = Rs.Res.ok [255, 0, 128] := by decide +kernel
+example : (do let a ← Gen.SrcAlphabet.alphabetNew [65, 67]
+              let m ← Gen.SrcAlphabet.rankNew a
+              Gen.SrcAlphabet.rankGet m 66) = Rs.Res.panic := by decide
 
 end RbV.Thm.C20
